@@ -53,7 +53,7 @@ func defaultHistOpts() histOpts {
 	return histOpts{
 		maxOps: 24, maxText: 600,
 		write: 8, fill: 6, readFrom: 4, parse: 12, drain: 6, shrink: 6,
-		resetNil: 1, resetDat: 1, ntl: 30, tinyPct: 12, zeroPct: 30,
+		resetNil: 1, resetDat: 1, ntl: 30, tinyPct: 12, zeroPct: 30, overReset: true,
 	}
 }
 
